@@ -185,6 +185,18 @@ pub fn run(ctx: &Ctx) -> i32 {
     sorted.sort();
     let set = Set::from_iter(sorted.iter()).expect("set of all keys");
     let nq = queries.len();
+    // more alphabets, each exhaustive for q, k <= 3: scalars at the encoding-length boundaries and scalars whose last
+    // (or only) continuation byte is the extreme 0x80 / 0xBF
+    let more: [[char; 8]; 2] = [['\u{7f}', '\u{80}', 'ÿ', '\u{7ff}', '\u{800}', '☿', '\u{ffff}', '😿'], ['a', '\u{81}', '\u{bf}', 'é', '\u{10000}', '\u{10ffff}', '\u{e000}', '\u{d7ff}']];
+    let more_sets: Vec<(Vec<String>, Set<Vec<u8>>)> = more
+        .iter()
+        .map(|al| {
+            let ks = strings(al, 3);
+            let mut sorted: Vec<Vec<u8>> = ks.iter().map(|k| k.as_bytes().to_vec()).collect();
+            sorted.sort();
+            (ks, Set::from_iter(sorted.iter()).expect("set"))
+        })
+        .collect();
     let queries2 = strings(&ALPHA2, 3);
     let keys2 = strings(&ALPHA2, 3);
     let mut sorted2: Vec<Vec<u8>> = keys2.iter().map(|k| k.as_bytes().to_vec()).collect();
@@ -202,7 +214,20 @@ pub fn run(ctx: &Ctx) -> i32 {
                 ev.count("queries:second-alphabet");
             }
         }
-        // one automaton with more than 65536 states (only reachable through new_with_limit)
+        for (ks, set) in more_sets.iter() {
+            for (qi, q) in ks.iter().enumerate() {
+                if qi % n != shard {
+                    continue;
+                }
+                for d in 0..=dmax {
+                    let before = ev.evaluations;
+                    check_query(q, d, ks, Some(set), ev);
+                    ev.distinct_extra += ev.evaluations - before;
+                    ev.count("queries:boundary-alphabets");
+                }
+            }
+        }
+        // two more exhaustive alphabets of boundary scalars (U+007F/80/81/BF/FF/7FF/800/D7FF/E000/FFFF/10000/10FFFF, ☿, 😿: last continuation byte 0x80 or 0xBF), one automaton with more than 65536 states (only reachable through new_with_limit)
         if shard == n - 1 {
             let q: String = "the quick brown fox jumps over the lazy dog and keeps running to the bank".chars().take(72).collect();
             ev.fps.insert(crate::rng::fnv(q.as_bytes()));
